@@ -45,6 +45,8 @@ def step(ctx, m, st, op, hist):
         st.ctr += 1
         c = st.ctr
         fields = (0o1 + (c % 5), 0o2, 1000 + c, 1 + (c % 120), c % 256, bytes([c % 256]) * (c % 25))
+        if c % 2:  # every other frame carries a bytearray the caller later mutates IN PLACE
+            fields = fields[:5] + (bytearray(fields[5]),)
         if op == "e_fresh" or st.last_obj is None:
             f = _mk(m, *fields)
         else:
@@ -53,7 +55,7 @@ def step(ctx, m, st, op, hist):
             f.header.message_type, f.header.reserved = fields[3], fields[4]
             f.message = fields[5]
         st.last_obj = f
-        exp = st.ref.enqueue(fields[0], fields[2], fields[3], fields[1], fields[4], fields[5])
+        exp = st.ref.enqueue(fields[0], fields[2], fields[3], fields[1], fields[4], bytes(fields[5]))
         got = st.real.enqueue(f)
         ctx.clause("enqueue_return")
     elif op == "e_dup":
@@ -114,7 +116,9 @@ def step(ctx, m, st, op, hist):
             return False
     # mutate the caller's object afterwards: the stored copy must be unaffected
     if op in ("e_fresh", "e_reuse") and st.last_obj is not None:
-        st.last_obj.message = b"mutated-by-caller"
+        if isinstance(st.last_obj.message, bytearray):
+            st.last_obj.message[:] = b"mutated-in-place"  # same object, new content
+        st.last_obj.message = bytearray(b"mutated-by-caller")
         st.last_obj.header.reserved = 0xEE
     # drain a clone and compare everything
     ctx.clause("drain_compare")
